@@ -263,13 +263,11 @@ loops: 1
 */
 /*@unit
 name: array_list_contains
-define: U_LIST_CONTAINS, VERIF_REAL_STDIO
+define: U_LIST_CONTAINS
 src: array.c
 enforce: spif_array_list_contains
-replace: time
-funcs: spif_array_list_find
+replace: spif_array_list_find
 backend: sat
-loops: 1
 */
 #if defined(U_LIST_FIND) || defined(U_LIST_CONTAINS)
 /* find(x): the first stored element equal to x (placeholders skipped), NULL iff none / x NULL.
@@ -278,7 +276,7 @@ loops: 1
 #define FIND_NONE (vg_k >= (size_t) self->len || obj == (spif_obj_t) NULL || !VA_MATCH_FIND)
 #define FIND_SOME (obj != (spif_obj_t) NULL && vg_exit < (size_t) self->len && \
                    (vg_k != vg_exit || VA_MATCH_FIND) && (vg_k >= vg_exit || !VA_MATCH_FIND))
-#ifdef U_LIST_FIND
+/* (contains uses find through this contract: --replace-call-with-contract) */
 static spif_obj_t spif_array_list_find(spif_array_t self, spif_obj_t obj)
 __CPROVER_requires(FIND_PRE)
 __CPROVER_assigns(vg_exit)
@@ -286,6 +284,7 @@ __CPROVER_ensures(__CPROVER_return_value != (spif_obj_t) NULL || FIND_NONE)
 __CPROVER_ensures(__CPROVER_return_value == (spif_obj_t) NULL ||
                   (FIND_SOME && (vg_k != vg_exit || __CPROVER_return_value == vg_old_k)))
 ;
+#ifdef U_LIST_FIND
 void harness(void) { spif_array_t self; spif_obj_t obj = nondet_ptr(); spif_array_list_find(self, obj); VERIF_CANARY(); }
 #else
 static spif_bool_t spif_array_list_contains(spif_array_t self, spif_obj_t obj)
